@@ -125,7 +125,7 @@ func (g *gen) newImage(subject int, shareFrom int) int {
 	}
 	if subject >= 0 || g.r.chance(10) {
 		if g.r.chance(60) {
-			o.AT = g.r.str("application/vnd.example.sbom", "application/vnd.example.sig", "text/plain")
+			o.AT = g.r.str("application/vnd.example.sbom", "application/vnd.example.sig", "text/plain", "application/vnd.Example.Sig.v1+json", "application/x;v=1")
 		} else {
 			o.ConfigMT = g.r.str(mtEmpty, "application/vnd.example.cfg", mtOCIConfig)
 		}
@@ -908,7 +908,8 @@ func planC07(prop string, seed uint64, tier string, idx int) *Plan {
 	g.p.Objs = append(g.p.Objs, &Obj{Kind: "image", Subject: -1, SubjFake: digestOf("sha256", []byte("missing subject")), Config: g.p.Objs[subj].Config, AT: "application/vnd.example.sig", MT: mtOCIManifest})
 	dangling := len(g.p.Objs) - 1
 	arts = append(arts, dangling)
-	filters := []string{"application/vnd.example.sbom", "application/vnd.example.sig", "text/plain", mtEmpty, "nomatch", "application/vnd.example.cfg"}
+	filters := []string{"application/vnd.example.sbom", "application/vnd.example.sig", "text/plain", mtEmpty, "nomatch", "application/vnd.example.cfg",
+		"application/vnd.Example.Sig.v1+json", "application/x;v=1", "application/vnd.example.sig.v1+json", "application/x"}
 	n := g.scale(g.r.between(6, 20))
 	for i := 0; i < n; i++ {
 		repo := g.r.intn(g.nrepos())
